@@ -92,7 +92,11 @@ func genInst(r *rand.Rand, cfg *GenCfg, name string, docNum int, seqNo *int) Fie
 	if name == "_id" {
 		id := []byte(fmt.Sprintf("d%d", *seqNo))
 		*seqNo++
-		fi.Terms = append(fi.Terms, TermOcc{Term: B(id), Freq: 1, Locs: []Loc{}})
+		idocc := TermOcc{Term: B(id), Freq: 1, Locs: []Loc{}}
+		if r.Intn(6) == 0 {
+			idocc.Locs = append(idocc.Locs, Loc{Field: "", Pos: 0, Start: 0, End: 0}) // field id 0, all components zero
+		}
+		fi.Terms = append(fi.Terms, idocc)
 		fi.Stored = true
 		fi.Value = B(id)
 	} else {
@@ -108,7 +112,10 @@ func genInst(r *rand.Rand, cfg *GenCfg, name string, docNum int, seqNo *int) Fie
 			if r.Float64() < cfg.PLocs {
 				nl := r.Intn(occ.Freq + 1)
 				for j := 0; j < nl; j++ {
-					occ.Locs = append(occ.Locs, Loc{Field: "", Pos: 1 + r.Intn(5), Start: r.Intn(40), End: 40 + r.Intn(200)})
+					// small values including zeros (a zero needs one varint byte too), and large ones
+					start := []int{0, 0, 1, 5, r.Intn(40), 300}[r.Intn(6)]
+					occ.Locs = append(occ.Locs, Loc{Field: "", Pos: []int{0, 0, 1, 2, 1 + r.Intn(5), 200}[r.Intn(6)], Start: start,
+						End: start + []int{0, 0, 1, 3, 40 + r.Intn(200), 70000}[r.Intn(6)]})
 				}
 			}
 			fi.Terms = append(fi.Terms, occ)
@@ -251,9 +258,11 @@ func genRoundtrip(r *rand.Rand, i int) Scenario {
 	sc := Scenario{Name: fmt.Sprintf("roundtrip-%d", i), NormKind: "code", Universe: universeOf(&cfg), Batches: []Batch{b}}
 	sc.Ops = []Op{
 		{Op: "build", Seg: 1, Batch: 0, Mode: pickMode(r)},
+		{Op: "persist_fail", Seg: 1, N: 1 + r.Intn(300)}, // a failed write must not influence later ones
 		{Op: "persist", Seg: 1, File: 1},
 		{Op: "load", File: 1, Seg: 2, Backing: "mem"},
 		{Op: "load", File: 1, Seg: 3, Backing: "file"},
+		{Op: "persist_fail", Seg: 3, N: 1 + r.Intn(300)},
 		{Op: "observe", Seg: 2, Level: "full"},
 		{Op: "observe", Seg: 3, Level: "full"},
 		{Op: "persist", Seg: 2, File: 2},
